@@ -15,6 +15,7 @@ The model describes what a *correct* driver does for a command shape
                                      (DIR_FORMS x NAME_FORMS below); default: a name with extension in the cwd
             ("oform", form)          how the -o path is spelled (O_FORMS); default "out.x"
             ("md", "MD" | "MF")      -MD / -MD -MF deps.mk : a dependency file is requested as well
+            ("opos", k)              -o <path> is written after the k-th input (1..n) instead of before all inputs
 
 and yields: the files to create before the run, the argv, the expected subprocess steps, the per-TU output paths,
 the set of requested outputs, and whether the command must succeed.  Nothing here looks at chibicc's sources;
@@ -23,6 +24,12 @@ define is marked undefined (`ok=None`) or `defined=False` so the checker never j
 
 Input kinds comprise standard input ("-" with -xc / -x assembler: c_in, c_pp_in, c_gen_in, s_in) and a library
 argument ("-lm": lib), which is an input of the linker only and never a translation unit.
+
+Driver-fault kinds (DRIVER_FAULT_KINDS): words among the inputs whose failure is the driver's own business - unk (an
+existing file whose extension names no language: the linker rejects it in link mode, otherwise a driver may ignore
+or refuse it: status undefined), opt_unk / opt_badx / opt_noarg (an unknown option, -x with an unknown language, -o
+lacking its argument as the last word: the command must be refused, `driver_refuses`).  None of them is a translation
+unit, none has an output.
 
 Output naming (what "the requested outputs" are):
   * with -o: that path, verbatim;
@@ -69,12 +76,24 @@ KINDS = {
     "s_in":     None,
     # a library argument (-lm): passed to the linker, not a translation unit
     "lib":      None,
+    # failures that originate in the driver itself (no subprocess is to blame):
+    "unk":       ".data",  # an existing file whose extension names no language: not a translation unit; a driver
+                           # hands it to the linker (which rejects the text) or refuses it; ignored-or-refused
+                           # outside link mode
+    "opt_unk":   None,     # an option no driver knows, written among the inputs: the command is refused
+    "opt_badx":  None,     # -x with a language nobody knows, written among the inputs: the command is refused
+    "opt_noarg": None,     # an option that lacks its argument (-o as the very last word): the command is refused
 }
 
 STDIN_KINDS = {"c_in": "c", "c_pp_in": "c_pp", "c_gen_in": "c_gen", "s_in": "s"}
 C_KINDS = ("c", "c_pp", "c_parse", "c_gen", "c_asm", "c_nx", "c_dir", "c_in", "c_pp_in", "c_gen_in")
 S_KINDS = ("s", "s_bad", "s_nx", "s_in")
 O_KINDS = ("o", "o_bad", "o_nx")
+# words among the inputs that are options the driver must refuse (never inputs, never translation units)
+OPT_KINDS = {"opt_unk": "--c14-no-such-option", "opt_badx": "-xc14nolang", "opt_noarg": "-o"}
+# kinds whose failure is the driver's own business: it is detected (if at all) by the driver, not by a step
+DRIVER_FAULT_KINDS = ("unk", "opt_unk", "opt_badx", "opt_noarg")
+UNK_TEXT = b"C14: notes kept next to the sources; (not a translation unit, not an object) %d\n"
 
 # ---- how an input is named on the command line ------------------------------------------------------------
 # directory form -> (prefix written on the command line, directory relative to the tree root)
@@ -110,6 +129,8 @@ def in_name(kind, slot):
         return "-"
     if kind == "lib":
         return "-lm"
+    if kind in OPT_KINDS:
+        return OPT_KINDS[kind]
     return "%s%d%s" % (kind.replace("_", ""), slot, KINDS[kind])
 
 
@@ -183,12 +204,13 @@ class Shape:
     def __init__(self, mode, o, kinds, outloc, var=()):
         self.mode, self.o, self.kinds, self.outloc = mode, o, tuple(kinds), outloc
         v = dict((k, val) for k, val in (var or ()))
-        unknown = set(v) - set(("paths", "oform", "md"))
+        unknown = set(v) - set(("paths", "oform", "md", "opos"))
         if unknown:
             raise ValueError("unknown shape dimension %s" % sorted(unknown))
         self.paths = tuple(v["paths"]) if v.get("paths") else None
         self.oform = v.get("oform")
         self.md = v.get("md")
+        self.opos = v.get("opos")       # -o <path> is written after the opos-th input (default: before all inputs)
         self.var = tuple(sorted((k, tuple(val) if isinstance(val, (list, tuple)) else val) for k, val in v.items() if val))
         self.cwd_rel = "wd" if (self.paths or self.oform) else ""
         if self.paths and len(self.paths) != len(self.kinds):
@@ -219,6 +241,8 @@ class Shape:
         if self.oform and self.oform != O_FORMS[0]:
             d, b = os.path.split(self.oform)
             t.append("-o@%s/%s" % (DIR_CLASS[d + "/" if d else ""], "noext" if "." not in b else "dots" if b.count(".") > 1 else "ext"))
+        if self.opos:
+            t.append("-o@after-last-input" if self.opos >= len(self.kinds) else "-o@between-inputs")
         return t
 
     # ------------------------------------------------------------------
@@ -232,7 +256,7 @@ class Shape:
             lang = "c" if k in C_KINDS else "assembler" if k in S_KINDS else "none" if k in O_KINDS else None
             if lang:
                 langs.add(lang)
-            if k in STDIN_KINDS or k == "lib":
+            if k in STDIN_KINDS or k == "lib" or k in OPT_KINDS:
                 self.inputs.append(in_name(k, i))
                 self.in_files.append(None)
                 need_x = need_x or k in STDIN_KINDS
@@ -260,6 +284,12 @@ class Shape:
                 self.invalid = "-x applies to every input: all inputs must be of one language"
         if self.kinds.count("lib") == len(self.kinds):
             self.invalid = "no input besides library arguments"
+        if "opt_noarg" in self.kinds and (self.kinds.index("opt_noarg") != len(self.kinds) - 1 or self.o):
+            self.invalid = "an option without its argument is the last word of the command (else it swallows an input)"
+        if self.opos and not (self.o == "file" and 1 <= self.opos <= len(self.kinds)):
+            self.invalid = "-o position without -o <file>"
+        if need_x and "opt_badx" in self.kinds:
+            self.invalid = "two -x options"
         if sum(1 for k in self.kinds if k in STDIN_KINDS) > 1:
             self.invalid = "standard input named twice"
         files = [p for p in self.in_files if p is not None]
@@ -282,7 +312,8 @@ class Shape:
         self.why_undefined = None
         if self.invalid:
             self.defined, self.why_undefined = False, self.invalid
-        if mode == "E" and any(k not in C_KINDS and k != "lib" for k in kinds):
+        # (under -E a driver may take every named file for C text - chibicc does - or leave non-C files alone)
+        if mode == "E" and any(k not in C_KINDS and k != "lib" and k not in OPT_KINDS for k in kinds):
             self.defined, self.why_undefined = False, "-E with non-C inputs"
         if self.outloc != "w" and mode == "E" and not self.o:
             self.defined, self.why_undefined = False, "-E without -o writes to stdout: no output location"
@@ -336,6 +367,9 @@ class Shape:
                     self.tu_out[i] = (opath or self._default_out(i, ".o")) if mode == "c" else None
             elif k in O_KINDS:
                 if mode == "link" and k != "o":
+                    self.nat_fail.append(("ld", None))
+            elif k == "unk":
+                if mode == "link":      # at the latest the linker rejects it
                     self.nat_fail.append(("ld", None))
         if mode == "link":
             self.steps.append(("ld", None))
@@ -391,16 +425,21 @@ class Shape:
 
         # must the command succeed?   True / False / None (the property does not say)
         ok = True
-        if self.nat_fail:
+        # the driver must refuse the command itself (a bad option): no step is to blame
+        # (-x names the language of the inputs that FOLLOW it: as the last word it may go unexamined - gcc does that)
+        self.driver_refuses = any(k in OPT_KINDS and not (k == "opt_badx" and i == len(kinds) - 1) for i, k in enumerate(kinds))
+        if self.nat_fail or self.driver_refuses:
             ok = False
+        elif "opt_badx" in kinds:
+            ok = None
         if self.outloc == "unw" and outs:
             ok = False
         # inputs a correct driver may either ignore or reject: status undefined
         for i, k in enumerate(kinds):
-            ignored = (k in S_KINDS and mode == "S") or (k in O_KINDS and mode in ("S", "c"))
+            ignored = (k in S_KINDS and mode == "S") or (k in O_KINDS and mode in ("S", "c")) or (k == "unk" and mode != "link")
             if ignored and base_kind(k) not in ("s", "o") and ok:
                 ok = None
-        self.usage_conflict = bool(self.o) and mode != "link" and len(kinds) > 1
+        self.usage_conflict = bool(self.o) and mode != "link" and sum(1 for k in kinds if k not in OPT_KINDS) > 1
         if self.usage_conflict:
             # several inputs and one -o outside link mode: drivers reject this or not depending on how many of
             # the inputs produce output (and on whether "-lm" counts); the property does not say, so success is
@@ -426,13 +465,17 @@ class Shape:
             a.append("-MD")
             if self.md == "MF":
                 a += ["-MF", MF_NAME]
+        ins = self.inputs_at(absroot)
         if self.o:
-            a += ["-o", "-" if self.o == "dash" else self.o_arg]
-        return a + self.inputs_at(absroot)
+            oa = ["-o", "-" if self.o == "dash" else self.o_arg]
+            if self.opos:
+                return a + ins[:self.opos] + oa + ins[self.opos:]
+            a += oa
+        return a + ins
 
     def main_slot(self):
         """The unit that defines main(): the first input that is not a library argument."""
-        return next(i for i, k in enumerate(self.kinds) if k != "lib")
+        return next((i for i, k in enumerate(self.kinds) if k != "lib" and k not in DRIVER_FAULT_KINDS), 0)
 
     def mat_key(self, kind, slot):
         """Key of the prepared text of (kind, slot): the classic name, prefixed when main() has moved there."""
